@@ -319,6 +319,7 @@ type Options struct {
 	MV     bool // C16: multivariant playlist
 	NoEmit bool // skip decoding of segments (long C04/C18 traces)
 	Tokens bool // C15: log every distinct playlist served as a token sequence ("tok" lines)
+	Delta  bool // C06: compare delta updates (_HLS_skip) with the full playlist of the same instant
 }
 
 func gcd(a, b int64) int64 {
@@ -773,6 +774,62 @@ func (r *runner) observe(ev trace.M, opts Options) {
 		pls = append(pls, a)
 	}
 	ev["pl"] = pls
+	ev["delta"] = 1
+	if opts.Delta && r.cfg.Variant == "ll" {
+		// a delta update is the full playlist of the same instant with its first N segments (and the EXT-X-MAP) replaced by
+		// EXT-X-SKIP:SKIPPED-SEGMENTS=N (C06)
+		for si, s := range r.streams {
+			full := media[si]
+			if full == nil {
+				continue
+			}
+			for _, sk := range []string{"YES", "v2"} {
+				path := s.id + "_stream.m3u8?_HLS_skip=" + sk
+				if r.cfg.Query != "" {
+					path += "&" + r.cfg.Query
+				}
+				rec := r.get(path)
+				if rec.Code != 200 {
+					ev["delta"] = 0
+					continue
+				}
+				d, err := m3u8.ReadMedia(rec.Body.String())
+				if err != nil {
+					ev["delta"] = 0
+					continue
+				}
+				n := 0
+				if d.HasSkip {
+					n = d.Skipped
+				}
+				ok := n >= 0 && n <= len(full.Segments) && len(d.Segments) == len(full.Segments)-n && d.MediaSeq == full.MediaSeq &&
+					d.TargetDur == full.TargetDur && d.HasHint == full.HasHint && d.HintURI == full.HintURI && len(d.Parts) == len(full.Parts) &&
+					(n == 0 || !d.HasMap)
+				if ok {
+					for i := range d.Segments {
+						a, b := d.Segments[i], full.Segments[n+i]
+						if a.URI != b.URI || a.DurText != b.DurText || a.Gap != b.Gap || a.DateTime != b.DateTime || len(a.Parts) != len(b.Parts) {
+							ok = false
+							break
+						}
+						for k := range a.Parts {
+							if a.Parts[k] != b.Parts[k] {
+								ok = false
+							}
+						}
+					}
+					for k := range d.Parts {
+						if ok && d.Parts[k] != full.Parts[k] {
+							ok = false
+						}
+					}
+				}
+				if !ok {
+					ev["delta"] = 0
+				}
+			}
+		}
+	}
 
 	// newly listed fragments, in listing order
 	for si := range r.streams {
